@@ -11,6 +11,10 @@ theorem C15_threshold_tie : Generated.MathConsts.inverseThreshold = inverseThres
 
 theorem C15_threshold_value : Generated.MathConsts.inverseThreshold = 1000000 := by decide
 
+/-- The rep guard `static_assert(is_floating_point<R> || numeric_limits<R>::max() >= 1'000'000)` uses the same
+literal: `thresholdOf` refuses exactly the integral reps that cannot hold it. -/
+theorem C15_threshold_guard_tie : Generated.MathConsts.inverseRepGuard = inverseThresholdLiteral := by decide
+
 /-! ### The inverse round trip, for every constant `K` -/
 
 /-- **C15, round trip (arithmetic statement).**  For every conversion constant `K ≥ 10^6` and every
